@@ -5,21 +5,36 @@ from . import hbuild, recipes
 
 GEN = os.path.join(COQ, "gen")
 
-# name -> (driver under /verif/gen, fresh sources, link recipe)
-GENERATORS = {
-    "charsets": ("../gen/gen_charsets.cc",
-                 ["src/base/CharacterSet.cc", "src/http/one/Parser.cc", "src/http/one/RequestParser.cc"],
-                 recipes.HTTP1),
-}
+import json
+
+
+def spec(name):
+    """gen/gen_<name>.json: {"driver": "../gen/gen_<name>.cc" (relative to harness/), "fresh": [/repo-relative
+    sources compiled from the working tree], "link": recipe name in vlib/recipes.py or explicit list,
+    optional "flags": [...], optional "script": "gen/x.py" (python generator run with /repo path instead)}"""
+    with open(os.path.join(VERIF, "gen", "gen_%s.json" % name)) as f:
+        d = json.load(f)
+    link = d.get("link", [])
+    if isinstance(link, str):
+        link = getattr(recipes, link)
+    return d, link
+
+
+def all_generators():
+    return sorted(f[4:-5] for f in os.listdir(os.path.join(VERIF, "gen")) if f.startswith("gen_") and f.endswith(".json"))
 
 
 def regenerate(which, res=None):
     """Run the named generators; returns dict file -> sha. Raises on failure."""
     out = {}
     for name in which:
-        drv, fresh, link = GENERATORS[name]
-        exe = hbuild.build("gen_" + name, drv, fresh=fresh, link=link)
-        rc, o, e = sh([exe], timeout=120)
+        d, link = spec(name)
+        if d.get("script"):
+            rc, o, e = sh(["python3", os.path.join(VERIF, d["script"]), hbuild.REPO], timeout=300)
+        else:
+            exe = hbuild.build("gen_" + name, d["driver"], fresh=d.get("fresh", []), link=link,
+                               flags=d.get("flags", []))
+            rc, o, e = sh([exe], timeout=300)
         if rc != 0:
             raise RuntimeError("table generator %s failed rc=%s: %s" % (name, rc, e[-2000:]))
         cur = None
